@@ -721,6 +721,46 @@ func runC08(c *config) {
 	for i := 0; i < 500*c.scale; i++ {
 		c08Module(c, r, i < 2)
 	}
+	// numbers written with leading zeros are the same numbers (decimal, as LLVM reads them): a chain of unnamed
+	// values long enough to have IDs of 8 and more, every definition and use spelled with up to two leading zeros
+	for i := 0; i < 60*c.scale; i++ {
+		n := 9 + r.intn(14)
+		sp := func(id int) string { return "%" + strings.Repeat("0", r.intn(3)) + fmt.Sprint(id) }
+		var b strings.Builder
+		b.WriteString("define i32 @f(i32 %a) {\n")
+		fmt.Fprintf(&b, "\t%s = add i32 %%a, 1\n", sp(1))
+		for id := 2; id <= n; id++ {
+			fmt.Fprintf(&b, "\t%s = add i32 %s, %s\n", sp(id), sp(id-1), sp(1+r.intn(id-1)))
+		}
+		fmt.Fprintf(&b, "\tret i32 %s\n}\n", sp(n))
+		src := b.String()
+		c.out.Stat("parse.leading_zero_ids")
+		bad := ""
+		oc, msg := guard(func() error {
+			m, err := asm.ParseString("c08lz.ll", src)
+			if err != nil {
+				return err
+			}
+			insts := m.Funcs[0].Blocks[0].Insts
+			if len(insts) != n {
+				return fmt.Errorf("%d instructions, %d written", len(insts), n)
+			}
+			for k := 1; k < n; k++ {
+				if insts[k].(*ir.InstAdd).X != value.Value(insts[k-1].(*ir.InstAdd)) {
+					bad = fmt.Sprintf("the first operand of value %d is not value %d", k+1, k)
+				}
+			}
+			if m.Funcs[0].Blocks[0].Term.(*ir.TermRet).X != value.Value(insts[n-1].(*ir.InstAdd)) {
+				bad = "the returned value is not the last one"
+			}
+			return nil
+		})
+		if oc != ocOk || bad != "" {
+			c.out.Fail("llvm_numbering_accepted", "", "numbers with leading zeros are rejected or bound to other values: "+bad, map[string]interface{}{"src": src, "msg": msg})
+		} else {
+			c.out.Pass("llvm_numbering_accepted")
+		}
+	}
 	// declarations: the unnamed parameters are numbered too, whether the function is printed on its own
 	// (Func.LLString on a function nothing has printed yet) or through its module
 	for i := 0; i < 200*c.scale; i++ {
